@@ -20,6 +20,14 @@ CLAIMS = {
     text='Lean 4 theorems over the fang model (onion_order: the fold of into_proc_with is the onion of the reversed list; early_answer_cuts: a fang that answers early cuts everything inside it and keeps the way out of the outer ones; mounts_flatten); the scope statement (fangs of exactly the applications whose mount prefix contains the path, hit or 404, any method) is decided on every run against a specification read off the configuration alone, on generated trees satisfying the side condition, and was exhaustively tested on 53,334 small configurations; differential run with tracing fangs (app-level tuples of 0-8 fangs, local fangs, an early-answering fang) against the executable model',
     note=TB + 'ScopeStatement is stated in Lean (Fangs.lean) but its proof is not complete: for scope the assurance is model/impl correspondence + the independent configuration-level spec; tuple nesting of Fangs::build and local-fang wrapping are validated by the traces',
     technique='Lean 4 proof (onion order, early answer) + model/implementation correspondence for scope'),
+ 'C05': dict(
+    text='partial: Lean 4 theorem no_residue over the model of the keep-alive loop (clear, one read into the 1 KiB buffer, head parsed from the bytes read, body completed by read_exact, handle, send; refused requests answered and the loop continued): for every application and every connection script, the handler is never given anything an earlier request left behind; tied to the code by a differential run of a mirror of the session loop (hooks H2, scripted in-memory connection) against the model with an echo application that prints everything observable (headers, payload, params, query, a per-request context entry), and by the metamorphic check on the implementation itself: k-th response = response of the same request alone on a fresh connection, in order, nothing after Connection: close',
+    note=TB + 'cannot be exhibited by the model and not verified: real TCP, the keep-alive timer, task scheduling; the harness mirrors the loop of session/mod.rs (tied to TcpStream) through the hooks; the statement "k-th response = fresh response" is decided per run on the implementation, its Lean proof (one_per_chunk) is not written',
+    technique='Lean 4 proof (loop invariant by induction over the loop) + model/implementation correspondence + metamorphic oracle'),
+ 'C06': dict(
+    text='partial: Lean 4 theorems over the same session model (readExact_flatten: read_exact returns exactly the next n bytes of the stream however they are split; no_residue for every segmentation); the executable model predicts the session under every segmentation exactly, including the two unsupported classes; per run: every single split point of several requests, random multi-splits, chunks beyond the buffer, compared with the canonical one-read-per-request segmentation on the implementation; the classes head_split and coalesced are recorded known findings',
+    note=TB + 'cannot be exhibited: real TCP segmentation and timers; known findings KF-C06-head-split, KF-C06-coalesced (redesign of Request::read needed); the theorem "responses are a function of the byte stream on the supported class" is decided per run, not yet proved in Lean',
+    technique='Lean 4 proof (stream lemmas, loop invariant) + model/implementation correspondence + metamorphic oracle over enumerated split points'),
  'C09': dict(
     text='Lean 4 theorem roundtrip_struct (reader after writer = identity and consumes all text, for every struct type and every well-typed unambiguous value, with the text primitives proved rather than assumed) and the percent-encoding round trip; tied to the code by a differential run of the real to_string / from_bytes / QueryParams::iter against the writer and reader models, and of decoded texts against an independent RFC 3986 pair reader',
     note=TB + 'modelled not verified: serde derive visitor protocol, str::parse, from_utf8, percent_encoding (hand models; PrimsOK proved for them); floats outside the catalogue; known finding KF-C09-empty-ambiguity',
